@@ -1,10 +1,12 @@
 (* Property C02 - only authorised, well-formed transactions move coins, exactly as the rules say.
    The rules are Spec/Rules.v (preconditions and effects in exact arithmetic).  Statements only. *)
 From Virel Require Import Lib.Config Lib.U64 Lib.AMap Model.Emission Model.Ledger Model.Node Spec.Rules
-  Proofs.Conservation Proofs.Pointwise Proofs.Refine Proofs.NodeBasics Gen.Params.
+  Proofs.Conservation Proofs.Pointwise Proofs.Emission Proofs.Refine Proofs.Refine2 Proofs.Refine2W Proofs.Refine3 Proofs.Refine4
+  Proofs.StakedSum Proofs.NodeBasics
+  Gen.Params.
 Open Scope N_scope.
 
-(* FULL STATEMENT: for every kind, whenever the code applies a stateless-valid transaction, the rules admit it and
+(* FULL STATEMENT: for every kind, whenever the code applies a stateless-valid transaction, the rules accept it and
    prescribe the same ledger (accounts, delegate records as sets of funds, staked total). *)
 Definition C02_full : Prop := forall cfg team_key l t h bh l1,
   total_bal l < two64 -> wf_tx cfg t ->
@@ -13,12 +15,14 @@ Definition C02_full : Prop := forall cfg team_key l t h bh l1,
   fst (spec_tx cfg team_key l t h) = 0 /\ same_accounts l1 (snd (spec_tx cfg team_key l t h)) /\
   staked l1 = staked (snd (spec_tx cfg team_key l t h)).
 
-(* PROVED for transfers (all ledgers, all amounts, 1..32 outputs, duplicates, transfers to self, to pools and to the burn
-   address): the rules admit what the code applies - signature by the debited account's key, next nonce, minimum fee,
+(* C02_full, read literally (EVERY transaction object, EVERY ledger, no side condition), is FALSE: see
+   C02_full_refuted below.  It holds under the explicit hypotheses of C02_tx_refines (all five kinds). *)
+
+(* Transfers (all ledgers, all amounts, 1..32 outputs, duplicates, transfers to self, to pools and to the burn
+   address): the rules accept what the code applies - signature by the debited account's key, next nonce, minimum fee,
    size, version regime, amounts + fee within 64 bits and within the balance - and both produce the same accounts,
-   delegate table and staked total.  Consequently a transfer the rules refuse is refused by the code.
-   The other four kinds are covered by the evaluation of the rules on the implementation's main chains (Check/C02.v:
-   ledger_of_chain on every dump) and by the conservation theorems of C01; their refinement proof is MISSING. *)
+   delegate table and staked total.  "partial" = this statement is the transfer case only; the other four kinds are
+   the next four theorems and C02_tx_refines joins the five. *)
 Theorem C02_transfer_refines_partial : forall cfg team_key l t outs0 h bh top_h l1,
   cfg_ok_fee cfg = true ->
   tx_data t = TTransfer outs0 -> (tx_version t = 0 \/ tx_version t = 1) ->
@@ -31,6 +35,194 @@ Theorem C02_transfer_refines_partial : forall cfg team_key l t outs0 h bh top_h 
   c = 0 /\ same_accounts l1 ls /\ dlgs l1 = dlgs ls /\ staked l1 = staked ls.
 Proof. exact transfer_refines. Qed.
 Print Assumptions C02_transfer_refines_partial.
+
+(* ---- the four staking kinds.  Hypotheses common to all: the side condition on the fee constants, uint64-typed
+   amounts, sum of balances < 2^64, counters and nonce not at the very end of the uint64 range, stateless validation
+   passed, version byte = the one of the payload kind.  For stake/unstake also the staked-total invariant SInv of C01
+   (every reachable ledger has it: C01_staked_sum_chain) and top height = h - 1.
+   Delegate side: the two delegate tables are EQUAL AS LISTS (same records in the same database order, funds in the
+   same order) - stronger than the comparison of Check/C02.v (records as sets of funds). ---- *)
+
+(* version 2: burns REGISTER_DELEGATE_BURN to the burn address, files an empty pool owned by the signer's key under a
+   free id (the rules' clauses 21-25: name length, id <> 0, id 1 reserved to the team key, id free, funds) *)
+Theorem C02_register_refines : forall cfg team_key l t nl name id h bh top_h l1,
+  cfg_ok_fee cfg = true ->
+  tx_data t = TRegister nl name id -> tx_version t = 2 ->
+  total_bal l < two64 -> wf_tx cfg t ->
+  (forall a, inc (acct_at l a) + 1 < two64) ->
+  nonce (acct_at l (addr_of_key (tx_signer t))) + 1 < two64 ->
+  prevalidate_tx cfg team_key t h = Ok tt ->
+  apply_tx cfg l t h bh top_h = Ok l1 ->
+  let '(c, ls) := spec_tx cfg team_key l t h in
+  c = 0 /\ same_accounts l1 ls /\ dlgs l1 = dlgs ls /\ staked l1 = staked ls.
+Proof. exact register_refines. Qed.
+Print Assumptions C02_register_refines.
+
+(* version 3: the account's pool changes only when the transaction names the current pool, the signer has no fund
+   left in it and the new pool exists (clauses 31-34) *)
+Theorem C02_set_delegate_refines : forall cfg team_key l t nw pv h bh top_h l1,
+  cfg_ok_fee cfg = true ->
+  tx_data t = TSetDelegate nw pv -> tx_version t = 3 ->
+  total_bal l < two64 -> wf_tx cfg t ->
+  (forall a, inc (acct_at l a) + 1 < two64) ->
+  nonce (acct_at l (addr_of_key (tx_signer t))) + 1 < two64 ->
+  prevalidate_tx cfg team_key t h = Ok tt ->
+  apply_tx cfg l t h bh top_h = Ok l1 ->
+  let '(c, ls) := spec_tx cfg team_key l t h in
+  c = 0 /\ same_accounts l1 ls /\ dlgs l1 = dlgs ls /\ staked l1 = staked ls.
+Proof. exact set_delegate_refines. Qed.
+Print Assumptions C02_set_delegate_refines.
+
+(* version 4: the pool is the account's pool, amount >= minimum stake, amount + fee debited, amount credited to the
+   pool address, the signer's fund created or topped up (exact sum), unlock height = tip + lock time, staked total
+   raised by the amount (clauses 40-45) *)
+Theorem C02_stake_refines : forall cfg team_key l t amt id pu h bh top_h l1,
+  cfg_ok_fee cfg = true ->
+  tx_data t = TStake amt id pu -> tx_version t = 4 ->
+  total_bal l < two64 -> wf_tx cfg t -> SInv l ->
+  (forall a, inc (acct_at l a) + 1 < two64) ->
+  nonce (acct_at l (addr_of_key (tx_signer t))) + 1 < two64 ->
+  top_h = h - 1 -> h - 1 + unlock_time cfg < two64 ->
+  prevalidate_tx cfg team_key t h = Ok tt ->
+  apply_tx cfg l t h bh top_h = Ok l1 ->
+  let '(c, ls) := spec_tx cfg team_key l t h in
+  c = 0 /\ same_accounts l1 ls /\ dlgs l1 = dlgs ls /\ staked l1 = staked ls.
+Proof. exact stake_refines. Qed.
+Print Assumptions C02_stake_refines.
+
+(* version 5: only the signer's own fund in the account's pool, only once the tip has reached the unlock height, at
+   most the fund, the fee taken out of the amount, fund removed when emptied, staked total lowered (clauses 50-57) *)
+Theorem C02_unstake_refines : forall cfg team_key l t amt id h bh top_h l1,
+  cfg_ok_fee cfg = true ->
+  tx_data t = TUnstake amt id -> tx_version t = 5 ->
+  total_bal l < two64 -> wf_tx cfg t -> SInv l ->
+  (forall a, inc (acct_at l a) + 1 < two64) ->
+  nonce (acct_at l (addr_of_key (tx_signer t))) + 1 < two64 ->
+  top_h = h - 1 ->
+  prevalidate_tx cfg team_key t h = Ok tt ->
+  apply_tx cfg l t h bh top_h = Ok l1 ->
+  let '(c, ls) := spec_tx cfg team_key l t h in
+  c = 0 /\ same_accounts l1 ls /\ dlgs l1 = dlgs ls /\ staked l1 = staked ls.
+Proof. exact unstake_refines. Qed.
+Print Assumptions C02_unstake_refines.
+
+(* ALL FIVE KINDS: the full statement under its explicit hypotheses.  [ver_ok t]: version byte 0 with a transfer, or
+   the version byte of the payload kind.  [tx_ctr t] = number of outputs of a transfer, 1 otherwise. *)
+Theorem C02_tx_refines : forall cfg team_key l t h bh l1,
+  cfg_ok_fee cfg = true -> ver_ok t = true ->
+  total_bal l < two64 -> wf_tx cfg t -> SInv l ->
+  (forall a, inc (acct_at l a) + tx_ctr t < two64) ->
+  nonce (acct_at l (addr_of_key (tx_signer t))) + 1 < two64 ->
+  h - 1 + unlock_time cfg < two64 ->
+  prevalidate_tx cfg team_key t h = Ok tt ->
+  apply_tx cfg l t h bh (h - 1) = Ok l1 ->
+  fst (spec_tx cfg team_key l t h) = 0 /\ same_accounts l1 (snd (spec_tx cfg team_key l t h)) /\
+  dlgs l1 = dlgs (snd (spec_tx cfg team_key l t h)) /\ staked l1 = staked (snd (spec_tx cfg team_key l t h)).
+Proof. exact tx_refines. Qed.
+Print Assumptions C02_tx_refines.
+
+(* contrapositive: a transaction the rules refuse (any clause) is refused by the code *)
+Theorem C02_refused_by_rules_refused_by_code : forall cfg team_key l t h bh,
+  cfg_ok_fee cfg = true -> ver_ok t = true ->
+  total_bal l < two64 -> wf_tx cfg t -> SInv l ->
+  (forall a, inc (acct_at l a) + tx_ctr t < two64) ->
+  nonce (acct_at l (addr_of_key (tx_signer t))) + 1 < two64 ->
+  h - 1 + unlock_time cfg < two64 ->
+  prevalidate_tx cfg team_key t h = Ok tt ->
+  fst (spec_tx cfg team_key l t h) <> 0 ->
+  forall l1, apply_tx cfg l t h bh (h - 1) <> Ok l1.
+Proof. exact refused_by_rules_refused_by_code. Qed.
+Print Assumptions C02_refused_by_rules_refused_by_code.
+
+(* ---- the staker reward: ApplyPosReward against the rule.  Every fund gets floor(floor(amount * reward / 100) * 99 /
+   pool total) (no 64-bit truncation can occur), the remainder goes to the pool owner's fund (created with unlock
+   height 0 when absent); same delegate table (as a list), same staked total; accounts untouched by both. ---- *)
+Theorem C02_pos_reward_refines : forall l bh o l1,
+  SInv l -> o_amt o < two64 ->
+  apply_pos_reward l bh o = Ok l1 ->
+  let '(c, ls) := spec_pos_reward l bh (o_extra o) (o_amt o) in
+  c = 0 /\ accts l1 = accts ls /\ dlgs l1 = dlgs ls /\ staked l1 = staked ls.
+Proof. exact pos_reward_refines. Qed.
+Print Assumptions C02_pos_reward_refines.
+
+(* ---- blocks: ApplyBlockToState against the block rule (lottery result, transactions in order with accumulated
+   fees, coinbase split, staker reward).
+   [tx_side cfg team_key h t] = wf_tx cfg t, ver_ok t = true, prevalidate_tx cfg team_key t h = Ok tt.
+   [ctr_ok l K] = every incoming-transfer counter and nonce of l is at least K below 2^64;
+   [txs_ctr txs] = sum over the transactions of (tx_ctr t + 1).  cfg_ok_emission: see C01_cfg_ok_*. ---- *)
+Theorem C02_block_refines : forall cfg genesis_addr team_key,
+  cfg_ok_fee cfg = true -> cfg_ok_emission cfg = true ->
+  forall l b l1,
+  total_bal l + reward cfg (lb_height b) <= max_supply cfg ->
+  Forall (tx_side cfg team_key (lb_height b)) (lb_txs b) -> SInv l ->
+  ctr_ok l (txs_ctr (lb_txs b) + 4) ->
+  lb_height b - 1 + unlock_time cfg < two64 ->
+  apply_block cfg genesis_addr l b (lb_height b - 1) = Ok l1 ->
+  let '(c, ls) := spec_block cfg genesis_addr team_key l b in
+  c = 0 /\ same_accounts l1 ls /\ dlgs l1 = dlgs ls /\ staked l1 = staked ls.
+Proof. exact block_refines_same. Qed.
+Print Assumptions C02_block_refines.
+
+Theorem C02_block_refused_by_rules_refused_by_code : forall cfg genesis_addr team_key,
+  cfg_ok_fee cfg = true -> cfg_ok_emission cfg = true ->
+  forall l b,
+  total_bal l + reward cfg (lb_height b) <= max_supply cfg ->
+  Forall (tx_side cfg team_key (lb_height b)) (lb_txs b) -> SInv l ->
+  ctr_ok l (txs_ctr (lb_txs b) + 4) ->
+  lb_height b - 1 + unlock_time cfg < two64 ->
+  fst (spec_block cfg genesis_addr team_key l b) <> 0 ->
+  forall l1, apply_block cfg genesis_addr l b (lb_height b - 1) <> Ok l1.
+Proof. exact block_refused_by_rules_refused_by_code. Qed.
+Print Assumptions C02_block_refused_by_rules_refused_by_code.
+
+(* ---- chains: apply_chain against ledger_of_chain, from any ledger holding the scheduled supply of height h with the
+   invariant, and from the empty ledger (genesis block first) - the latter is what Check/C02.v evaluates on the
+   implementation's main chains.  [chain_ctr bs] = sum over the blocks of (txs_ctr + 4). ---- *)
+Theorem C02_chain_refines : forall cfg genesis_addr team_key,
+  cfg_ok_fee cfg = true -> cfg_ok_emission cfg = true ->
+  forall bs l (h : nat) l',
+  total_bal l = sum_rewards cfg h -> heights_from h bs ->
+  Forall (fun b => Forall (tx_side cfg team_key (lb_height b)) (lb_txs b)) bs -> SInv l ->
+  ctr_ok l (chain_ctr bs) ->
+  Forall (fun b => lb_height b - 1 + unlock_time cfg < two64) bs ->
+  apply_chain cfg genesis_addr l bs = Ok l' ->
+  let '(c, ls) := ledger_of_chain cfg genesis_addr team_key l bs in
+  c = 0 /\ same_accounts l' ls /\ dlgs l' = dlgs ls /\ staked l' = staked ls.
+Proof. exact chain_refines_same. Qed.
+Print Assumptions C02_chain_refines.
+
+Theorem C02_chain_refines_from_genesis : forall cfg genesis_addr team_key,
+  cfg_ok_fee cfg = true -> cfg_ok_emission cfg = true ->
+  forall b0 bs l',
+  lb_height b0 = 0 -> heights_from 0 bs ->
+  Forall (fun b => Forall (tx_side cfg team_key (lb_height b)) (lb_txs b)) (b0 :: bs) ->
+  chain_ctr (b0 :: bs) < two64 ->
+  Forall (fun b => lb_height b - 1 + unlock_time cfg < two64) (b0 :: bs) ->
+  apply_chain cfg genesis_addr ledger0 (b0 :: bs) = Ok l' ->
+  let '(c, ls) := ledger_of_chain cfg genesis_addr team_key ledger0 (b0 :: bs) in
+  c = 0 /\ same_accounts l' ls /\ dlgs l' = dlgs ls /\ staked l' = staked ls.
+Proof. exact chain_refines_from_genesis. Qed.
+Print Assumptions C02_chain_refines_from_genesis.
+
+(* WITNESS (main-net constants): the hypothesis on the version byte cannot be dropped.  A transaction object with a
+   Stake payload under version byte 1 passes Prevalidate and is applied by ApplyTxToState as a bare debit/credit
+   without any staking effect, while the rules refuse it (clause 8).  Neither Prevalidate nor ApplyTxToState compares
+   Version with Data.AssociatedTransactionVersion(); only Deserialize ties the two (so no such object can come from
+   the wire or the database). *)
+Theorem C02_version_mismatch_witness :
+  exists l1,
+    ver_ok w_tx = false /\
+    prevalidate_tx cfg_mainnet 0 w_tx 300000 = Ok tt /\
+    apply_tx cfg_mainnet w_ledger w_tx 300000 1 299999 = Ok l1 /\
+    fst (spec_tx cfg_mainnet 0 w_ledger w_tx 300000) = 8 /\
+    bal (acct_at l1 (delegate_addr 9)) = 100000000000 /\
+    get_dlg l1 9 = Some (mkdlg 9 3 0 []) /\ staked l1 = 0.
+Proof. exact version_mismatch_witness. Qed.
+Print Assumptions C02_version_mismatch_witness.
+
+Theorem C02_full_refuted : ~ C02_full.
+Proof. exact full_statement_refuted. Qed.
+Print Assumptions C02_full_refuted.
 
 Theorem C02_cfg_ok_fee_mainnet : cfg_ok_fee cfg_mainnet = true. Proof. vm_compute. reflexivity. Qed.
 Theorem C02_cfg_ok_fee_testnet : cfg_ok_fee cfg_testnet = true. Proof. vm_compute. reflexivity. Qed.
